@@ -224,7 +224,16 @@ CHECK_DEADLOCK FALSE
 			ladderDepth = 400
 		}
 		for kind := range ladderKinds {
-			if err := ladderCheck(c, ladderDepth, kind, false); err != nil {
+			depth := ladderDepth
+			if kind > 0 {
+				// the other stage shapes: 2^40 (2^100) paths are as good as 3^120 for telling polynomial from exponential,
+				// and the TLC validation of the recorded traversal grows faster than linearly with the trace
+				depth = 40
+				if c.Thorough {
+					depth = 100
+				}
+			}
+			if err := ladderCheck(c, depth, kind, false); err != nil {
 				return err
 			}
 		}
